@@ -47,9 +47,12 @@
    OPEN (other packages; nothing below claims them):
      LAYER 1  bytes + reader schedule -> lines (Reader.v / Encoding.v: BOM,
               UTF-8 lossy loop, UTF-16, `from_utf8_unchecked` on a validated
-              prefix (T01d), read_until/read_exact; "an error result can only
-              originate from a failure reported by the reader" (T01e, known
-              finding D6 for UTF-16LE ending inside a line feed));
+              prefix (T01d), read_until and the extra-byte loop of
+              read_line; "an error result can only originate from a failure
+              reported by the reader" is T01e, PROVED below for every reader
+              state ([C01_T01e_error_only_from_reader]); finding D6 -- a
+              UTF-16LE stream ending inside a line feed made read_exact
+              manufacture UnexpectedEof -- was found by it and is repaired));
      LAYER 3  (the curve: see the section "LAYER 3" at the end of this file.
               PROVED there: calculate_path / calculate_length never panic,
               for every libm, and hence no decode ever panics.  OPEN: that
@@ -265,27 +268,61 @@ Example ex_empty_file :
 Proof. vm_compute. reflexivity. Qed.
 
 (* ------------------------------------------------------------------ *)
-(* LAYERS 1+2 composed: from_bytes on an in-memory buffer               *)
-(* The reader model on the one-chunk schedule (= Cursor / from_bytes),  *)
-(* then the decoder.  For EVERY byte string the result is a value --    *)
-(* or, only for a UTF-16LE stream, the UnexpectedEof of the recorded    *)
-(* class D6; never a panic, never out of fuel.                          *)
+(* LAYER 1: bytes + reader schedule -> lines                            *)
+(* T01e.  An error result can only originate from a failure reported     *)
+(* by the underlying reader: for EVERY reader state (bytes, buffered      *)
+(* part, schedule of chunks / Interrupted / failures) an Err of the      *)
+(* decode is a failure event of the schedule -- so a reader that reports *)
+(* no failure never gets an Err, in any of the encodings.  (Before the   *)
+(* repair of D6 this was refuted by FF FE 61 00 0A.)                     *)
 
 From RM Require Import Proofs.C01Bytes Model.Reader Model.Encoding.
+From RM Require Proofs.ReaderFacts Proofs.EncodingFacts Proofs.TransparencyFacts Proofs.IoWitnesses.
+
+Theorem C01_T01e_error_only_from_reader : forall r k,
+  read_all_lines r = IoErr k -> In (Fail k) (sched r).
+Proof. exact (ReaderFacts.read_all_lines_err_from_reader EncodingFacts.decode_utf8_lossy_spec). Qed.
+Print Assumptions C01_T01e_error_only_from_reader.
+
+(* the same for one call of Decoder::read_line *)
+Theorem C01_T01e_read_line : forall fuel d k,
+  read_line fuel d = IoErr k -> In (Fail k) (sched (inner d)).
+Proof. exact (ReaderFacts.read_line_err_from_reader EncodingFacts.decode_utf8_lossy_spec). Qed.
+Print Assumptions C01_T01e_read_line.
+
+(* hence: a faultless reader always gets the list of lines (no Err, no panic,
+   fuel sufficient), for every byte string and every chunking *)
+Theorem C01_faultless_reader_never_fails : forall b s,
+  faultless s -> exists ls, read_all_lines (mk_reader b s) = IoDone ls.
+Proof. exact TransparencyFacts.clean_stream_never_fails. Qed.
+Print Assumptions C01_faultless_reader_never_fails.
+
+(* the input of the former refutation (UTF-16LE `a` LF cut after the low byte
+   of the line feed), at several chunkings and with Interrupted at the
+   extra-byte read: one line "a" *)
+Example C01_former_d6_input :
+  let show := IoWitnesses.show in
+  show (read_all_lines (mk_reader [255; 254; 97; 0; 10] [])) = show (IoDone [lit "a"]) /\
+  show (read_all_lines (mk_reader [255; 254; 97; 0; 10] [Chunk 3; Chunk 1; Chunk 1])) = show (IoDone [lit "a"]) /\
+  show (read_all_lines (mk_reader [255; 254; 97; 0; 10] [Chunk 4; Chunk 1; Interrupted; Interrupted])) = show (IoDone [lit "a"]) /\
+  show (read_all_lines (mk_reader [255; 254; 97; 0; 10] [Chunk 5; Interrupted])) = show (IoDone [lit "a"]).
+Proof. exact IoWitnesses.former_d6_input_decodes. Qed.
+
+(* ------------------------------------------------------------------ *)
+(* LAYERS 1+2 composed: from_bytes on an in-memory buffer               *)
+(* The reader model on the one-chunk schedule (= Cursor / from_bytes),  *)
+(* then the decoder.  For EVERY byte string the result is a value:      *)
+(* never an Err, never a panic, never out of fuel.                      *)
 
 Theorem C01_from_bytes_beatmap :
   forall dist_of, (forall m cps e, exists d, dist_of m cps e = Done d) ->
-  forall b : bytes,
-  (exists v, decode_bytes_beatmap dist_of b = IoDone v) \/
-  (decode_bytes_beatmap dist_of b = IoErr UnexpectedEof /\ fst (from_bom b) = Utf16LE).
+  forall b : bytes, exists v, decode_bytes_beatmap dist_of b = IoDone v.
 Proof. exact from_bytes_beatmap. Qed.
 Print Assumptions C01_from_bytes_beatmap.
 
 Theorem C01_from_bytes_hit_objects :
   forall dist_of, (forall m cps e, exists d, dist_of m cps e = Done d) ->
-  forall b : bytes,
-  (exists v, decode_bytes_hit_objects dist_of b = IoDone v) \/
-  (decode_bytes_hit_objects dist_of b = IoErr UnexpectedEof /\ fst (from_bom b) = Utf16LE).
+  forall b : bytes, exists v, decode_bytes_hit_objects dist_of b = IoDone v.
 Proof. exact from_bytes_hit_objects. Qed.
 Print Assumptions C01_from_bytes_hit_objects.
 
@@ -375,15 +412,13 @@ Theorem C01_decode_no_panic :
 Proof. exact DecodeNoPanic.decode_no_panic. Qed.
 Print Assumptions C01_decode_no_panic.
 
-(* LAYERS 1+2+3: from_bytes on an in-memory buffer: a value, the D6
-   UnexpectedEof (UTF-16LE only), or out of fuel; never a panic *)
+(* LAYERS 1+2+3: from_bytes on an in-memory buffer: a value, or out of fuel
+   (only inside the curve); never an Err, never a panic *)
 Theorem C01_decode_bytes_never_panics :
   forall lm (b : bytes),
   ((exists v, decode_bytes_beatmap (dist_of_curve lm) b = IoDone v) \/
-   (decode_bytes_beatmap (dist_of_curve lm) b = IoErr UnexpectedEof /\ fst (from_bom b) = Utf16LE) \/
    decode_bytes_beatmap (dist_of_curve lm) b = IoFuel) /\
   ((exists v, decode_bytes_hit_objects (dist_of_curve lm) b = IoDone v) \/
-   (decode_bytes_hit_objects (dist_of_curve lm) b = IoErr UnexpectedEof /\ fst (from_bom b) = Utf16LE) \/
    decode_bytes_hit_objects (dist_of_curve lm) b = IoFuel).
 Proof. exact DecodeNoPanic.decode_bytes_never_panics. Qed.
 Print Assumptions C01_decode_bytes_never_panics.
@@ -394,6 +429,13 @@ Theorem C01_decode_bytes_no_panic :
   decode_bytes_hit_objects (dist_of_curve lm) b <> IoPanic w.
 Proof. exact DecodeNoPanic.decode_bytes_no_panic. Qed.
 Print Assumptions C01_decode_bytes_no_panic.
+
+Theorem C01_decode_bytes_no_error :
+  forall lm (b : bytes) k,
+  decode_bytes_beatmap (dist_of_curve lm) b <> IoErr k /\
+  decode_bytes_hit_objects (dist_of_curve lm) b <> IoErr k.
+Proof. exact DecodeNoPanic.decode_bytes_no_error. Qed.
+Print Assumptions C01_decode_bytes_no_error.
 
 (* ------------------------------------------------------------------ *)
 (* LAYER 3, "hang": the two loops of curve.rs without structural bound   *)
